@@ -17,7 +17,7 @@ PROP = {
 }
 
 MANIFEST = {
-    "text": "Theorems (Coq, all lists, all grids, no bounds) over an executable model of value/binning.go on exact rationals: getIndex puts every value into exactly the bin the statement names (underflow / [start+(i-1)*size, start+i*size) / overflow) for every size>0 and count>=0; the bins of binning and binning2d sum to the sum of the element values and bin i holds exactly the sum of the elements its description admits; binning(xs++ys) is the entrywise sum of binning(xs) and binning(ys); collectBinning over the binnings of any list of parts returns the binning of the concatenation (1-d and 2-d). The model is compared with the real list.binning / binning2d / collectBinning (through Generate) on generated record lists (edges, next-float-beside-edge, far outside up to 2^900*size, negative, zero) x grids (count 0..64) x splittings into <= 4 parts, floats transported exactly, with the laws re-evaluated on the implementation's outputs in exact rational arithmetic.",
+    "text": "Theorems (Coq, all lists, all grids, no bounds) over an executable model of value/binning.go on exact rationals: getIndex puts every value into exactly the bin the statement names (underflow / [start+(i-1)*size, start+i*size) / overflow) for every size>0 and count>=0; the bins of binning and binning2d sum to the sum of the element values and bin i holds exactly the sum of the elements its description admits; binning(xs++ys) is the entrywise sum of binning(xs) and binning(ys); collectBinning over the binnings of any list of parts returns the binning of the concatenation (1-d and 2-d). The model is compared with the real list.binning / binning2d / collectBinning (through Generate) on generated record lists (edges, next-float-beside-edge, far outside up to 2^900*size, negative, zero) x grids (count 0..64) x splittings into <= 4 parts, on histories over the same partial results (parts binned once, 2-4 collectBinning calls over permutations/sub-multisets, every partial result re-read after every call; in the model partial results are immutable values, so their persistence is checked by the run, the value of every collect of a history is a theorem) and on all map observers of the bin descriptions (isAvail/get/member/~/list/size/string/= against the description record, theorem C20_descr_observers), floats transported exactly, with the laws re-evaluated on the implementation's outputs in exact rational arithmetic.",
     "design_ref": "DESIGN.md section 6 C20",
     "note": "Trusted: Coq kernel + VM, the Go harness (generators, exactness filter, oracle); the model is hand-written and tied by correspondence only; agreement of float and rational arithmetic is restricted to cases where no float operation rounds (decided per case by the harness, skipped cases counted).",
     "technique": "Coq proof over an exact-rational model + vm_compute correspondence run + exact-arithmetic law oracle on the implementation's outputs",
